@@ -285,6 +285,20 @@ BRIDGE_TB["EdsProofs.BridgeStrategy"] = (
     "manageCanaryStatus with preConds \"canary\" followed by the unscheduled nodes, the PodsCleanupDone condition and the requeue "
     "(canaryDeployResult), src_applyStrategy_other (any other role string: a nil result). API steps as universally quantified parameters: "
     "ensureCanaryPodLabels (an API loop: its error), deletePodSlice (its errors), and those of ManageDeployment")
+BRIDGE_TB["EdsProofs.BridgeSetting"] = (
+    "searchPossibleConflict (controllers/extendeddaemonsetsetting/controller.go: the copy of the listed settings into a slice of pointers, "
+    "sort.Sort, the loops over nodes x settings with the map nodesAlreadySelected, the skip of another setting's unusable selector, the two error "
+    "returns) is TRANSLATED AS A WHOLE on every run (Generated/DecSetting.lean) and proved to return the model's searchConflict "
+    "(EdsProofs/BridgeSetting.lean, src_searchPossibleConflict: never panics on non-nil arguments; no conflict = (\"\", nil), a conflict = the other "
+    "setting's name and an error naming a listed node, the instance's own unusable selector = (\"\", err); src_searchPossibleConflict_reconcile: "
+    "the status Reconcile derives from it is the model's settingReconcile). Hypotheses, both guarantees of the API server: no two different "
+    "listed settings with the same creation time AND name (NoTies; implied by unique names -- sort.Sort is not stable, the model's insertion sort "
+    "is anti-stable; with no ties every sorting algorithm returns the same slice, src_sortSettings / mergeSort_eq_sortSettings) and pairwise "
+    "distinct node names (needed: nodeNames_needed -- the code keeps ONE map across the nodes and leaves node.Name -> \"\" behind, the model scans "
+    "each node afresh). Mapped to model functions, tied by correspondence only: sort.Sort -> Go.stableSortBy = List.mergeSort with the TRANSLATED "
+    "edsNodeByCreationTimestampAndPhase.Less (DecStatus) applied to the two-element slice of the elements compared (Len / Swap checked syntactically "
+    "to be the canonical slice methods); metav1.LabelSelectorAsSelector / selector.Matches -> Go.labelSelectorAsSelector / Go.selectorMatches "
+    "(EdsModel/GoPreludeSetting.lean: together the model's settingMatches, the conversion error = Setting.badSelector)")
 BRIDGES = {
     "C05": ["EdsProofs.BridgeCanary"],
     "C08": ["EdsProofs.BridgeCanary", "EdsProofs.BridgePodCompare", "EdsProofs.BridgeCanaryStatus", "EdsProofs.BridgeDeployment"],
@@ -297,7 +311,7 @@ BRIDGES = {
     "C06": ["EdsProofs.BridgeConds", "EdsProofs.BridgeStatus", "EdsProofs.BridgePodCompare", "EdsProofs.BridgeCanaryStatus", "EdsProofs.BridgeStrategy"],
     "C19": ["EdsProofs.BridgeCanary"],
     "C01": ["EdsProofs.BridgeStatus"],
-    "C18": ["EdsProofs.BridgeStatus"],
+    "C18": ["EdsProofs.BridgeStatus", "EdsProofs.BridgeSetting"],
     "C07": ["EdsProofs.BridgeCleanup", "EdsProofs.BridgeCanary", "EdsProofs.BridgeStatus"],
     "C13": ["EdsProofs.BridgeCleanup"],
     "C16": ["EdsProofs.BridgeDefaults", "EdsProofs.BridgeSlowStart"],
